@@ -69,9 +69,11 @@ trait TStore: WalStorePort {
     /// Recovers a coordinator from a crash copy of this store: the state before the last
     /// transaction (`pre`) plus, per crash point, part of what that transaction wrote.
     /// Returns (label, result-before-truncation, result-after-writable-recovery).
-    fn crash_points(&self, pre: &Snapshot) -> Vec<(String, Result<ExternalActionCoordinatorV1, PErr>, Result<ExternalActionCoordinatorV1, PErr>)>;
+    fn crash_points(&self, pre: &Snapshot) -> Vec<CrashPoint>;
     fn snapshot(&self) -> Snapshot;
 }
+
+type CrashPoint = (String, Result<ExternalActionCoordinatorV1, PErr>, Result<ExternalActionCoordinatorV1, PErr>, Option<String>);
 
 enum Snapshot {
     Mem(InMemoryWalStore),
@@ -199,7 +201,7 @@ impl TStore for MemStore {
     fn snapshot(&self) -> Snapshot {
         Snapshot::Mem(self.inner.clone())
     }
-    fn crash_points(&self, pre: &Snapshot) -> Vec<(String, Result<ExternalActionCoordinatorV1, PErr>, Result<ExternalActionCoordinatorV1, PErr>)> {
+    fn crash_points(&self, pre: &Snapshot) -> Vec<CrashPoint> {
         let Snapshot::Mem(pre) = pre else { return Vec::new() };
         let mut out = Vec::new();
         let before = pre.read_frames().len();
@@ -213,7 +215,7 @@ impl TStore for MemStore {
             let r1 = ExternalActionCoordinatorV1::recover(&copy);
             let _ = recover_in_memory_store(&mut copy, RecoveryAccessMode::Writable);
             let r2 = ExternalActionCoordinatorV1::recover(&copy);
-            out.push((format!("frame{}", k - before), r1, r2));
+            out.push((format!("frame{}", k - before), r1, r2, None));
         }
         out
     }
@@ -332,7 +334,7 @@ impl TStore for FsStore {
     fn snapshot(&self) -> Snapshot {
         Snapshot::Fs(self.segment_bytes())
     }
-    fn crash_points(&self, pre: &Snapshot) -> Vec<(String, Result<ExternalActionCoordinatorV1, PErr>, Result<ExternalActionCoordinatorV1, PErr>)> {
+    fn crash_points(&self, pre: &Snapshot) -> Vec<CrashPoint> {
         let Snapshot::Fs(pre) = pre else { return Vec::new() };
         let post = self.segment_bytes();
         let mut out = Vec::new();
@@ -372,14 +374,53 @@ impl TStore for FsStore {
             let r1 = FilesystemWalStore::open(&crash_root, WalSegmentId::from_raw(1))
                 .map_err(PErr::from)
                 .and_then(|st| ExternalActionCoordinatorV1::recover(&st));
+            // A host that trusts a successful coordinator recovery keeps working on this store:
+            // a step acknowledged there must survive the next reopen.
+            let mut extra = None;
+            if r1.is_ok() && std::env::var("C17_NO_RESUME").is_err() {
+                let resume_root = self.root.with_extension("resume");
+                copy_dir(&crash_root, &resume_root);
+                extra = resume_after_crash(&resume_root);
+                let _ = std::fs::remove_dir_all(&resume_root);
+            }
             let _ = recover_filesystem_store(&crash_root, RecoveryAccessMode::Writable);
             let r2 = FilesystemWalStore::open(&crash_root, WalSegmentId::from_raw(1))
                 .map_err(PErr::from)
                 .and_then(|st| ExternalActionCoordinatorV1::recover(&st));
-            out.push((label, r1, r2));
+            out.push((label, r1, r2, extra));
         }
         let _ = std::fs::remove_dir_all(&crash_root);
         out
+    }
+}
+
+/// Continue on a crashed filesystem store exactly like a restarted host does (open, fresh writer
+/// epoch, coordinator recovery), record one new request, then restart again: the acknowledged
+/// request must be recovered.  Returns a finding, if any.
+fn resume_after_crash(root: &Path) -> Option<String> {
+    let probe = probe_request(digest("c17:resume-probe"));
+    {
+        let mut st = FilesystemWalStore::open(root, WalSegmentId::from_raw(1)).ok()?;
+        let ep = st.acquire_fresh_writer_epoch(Lsn::from_raw(0)).ok()?;
+        let mut co = ExternalActionCoordinatorV1::recover(&st).ok()?;
+        let ctx = base_ctx("c17:resume", ep.epoch_id, WalDurabilityMode::StrictFilesystem);
+        if record_external_action_request(&mut st, &mut co, ctx, probe).is_err() {
+            return None; // refused: nothing was acknowledged
+        }
+    }
+    let st = match FilesystemWalStore::open(root, WalSegmentId::from_raw(1)) {
+        Ok(st) => st,
+        Err(e) => return Some(format!("reopen:{e:?}")),
+    };
+    match ExternalActionCoordinatorV1::recover(&st) {
+        Ok(co) => {
+            if co.observed_index().get(probe.request_id()).is_some() {
+                None
+            } else {
+                Some("recovered-without-acknowledged-request".into())
+            }
+        }
+        Err(e) => Some(format!("recover:{}", err_name(&e))),
     }
 }
 
@@ -700,7 +741,10 @@ fn oracle_after<S: TStore>(s: &Sys<S>, cl: &mut Client, cm: &Commits, pre_view: 
     }
     // (3) crash points inside the transaction just written are invisible
     if let Some(pre) = pre_snap {
-        for (label, r1, r2) in s.store.crash_points(pre) {
+        for (label, r1, r2, extra) in s.store.crash_points(pre) {
+            if let Some(x) = extra {
+                cl.flag(format!("acknowledged-step-lost-after-torn-tail[{tag}]:{what}:{label}:{x}"));
+            }
             cl.checks += 1;
             match r1 {
                 Err(PErr::WalTailNotClean) => {}
